@@ -1,119 +1,39 @@
-(* Text -> value parsing as the sources need it (interface of the sources'
-   models towards package parse / strconv / the flag packages' setters).
+(* Text -> value parsing as the sources need it.
 
-   This file is the small stand-in used by the source models of C11/C12: it
-   is meant to be swapped for the C15 model of package parse.  It mirrors
-     strconv.ParseBool, strconv.ParseUint/ParseInt (base 0 incl. prefixes and
-     underscores; any bit size), time.ParseDuration (without non-zero
-     fractions), parse.String's dispatch for scalar kinds (parse_string.go,
-     number.go).
-   Kinds that are NOT modelled here (floats, complex, slices, maps, arrays,
-   named scalars other than time.Duration) return `Err unmodelled`; the
-   generators of the correspondence checks never feed text to such leaves.
+   Integers, booleans, strings, slices, sets and maps are parsed by the model
+   of package parse (Text/ParseString.v: parse_string over the modelled
+   text/scanner, Text/ParseInt.v: strconv.ParseInt/ParseUint), whose theorems
+   are property C15.  This file holds
+     (1) the bridge from reflect types / tree values (Reflect/Ty.v) to that
+         model's own type and value universe (to_ps, of_pval, parse_text);
+     (2) exactly what that model lacks and the sources need:
+         - time.ParseDuration (a fraction with a non-zero digit is Err 98:
+           float arithmetic is not modelled),
+         - strconv.ParseFloat / ParseComplex on plain decimal texts whose
+           value times 1024 is an integer (Err 98 otherwise),
+         - net.IP.UnmarshalText on dotted-quad IPv4 text,
+         - pflag's own StringSlice reader (encoding/csv) on unquoted fields.
+   unicode.IsPrint is the ASCII table (isp0): texts that go through the
+   modelled scanner in the correspondence checks are ASCII.
 
-   Err codes: 1 syntax, 2 out of range, 3 unsupported kind (parse.String's
-   default branch), 96/97/98 unmodelled. *)
+   Err codes: ParseInt.e_syntax 1, e_range 2, e_overflow 3, Split's 5-7,
+   ParseString.e_kind 8; here 96/97/98 unmodelled. *)
 From Coq Require Import String.
 From Coq Require Import List NArith ZArith Bool.
-From Dials Require Import Base.Outcome Base.Runes Reflect.Ty.
+From Dials Require Import Base.Outcome Base.Runes Reflect.Ty Text.ParseInt Text.Quote Text.Split.
+From Dials Require Text.ParseString.
 Import ListNotations.
 Open Scope list_scope.
 Open Scope N_scope.
 
-Definition e_syntax : N := 1.
-Definition e_range : N := 2.
-Definition e_kind : N := 3.
+Module PS := Dials.Text.ParseString.
+
+Definition e_kind : N := PS.e_kind.
 Definition e_unmodelled : N := 97.
-
-(* ---- strconv.ParseBool ---- *)
-Definition parse_bool (s : str) : outcome bool :=
-  if existsb (str_eqb s) [[49]; [116]; [84]; [84;82;85;69]; [116;114;117;101]; [84;114;117;101]] then Ok true
-  else if existsb (str_eqb s) [[48]; [102]; [70]; [70;65;76;83;69]; [102;97;108;115;101]; [70;97;108;115;101]] then Ok false
-  else Err e_syntax.
-
-(* ---- strconv.ParseUint(s, 0, bits) ---- *)
-Definition lower_b (c : rune) : rune := N.lor c 32.   (* strconv.lower: c | ('x'-'X') *)
-
-Definition digit_val (c : rune) : option N :=
-  if (48 <=? c) && (c <=? 57) then Some (c - 48)
-  else let l := lower_b c in
-       if (97 <=? l) && (l <=? 122) then Some (l - 97 + 10) else None.
-
 Definition pow2 (b : N) : N := 2 ^ b.
 
-(* the digit loop: n accumulates; `under` records that a '_' was skipped *)
-Fixpoint uint_loop (base : N) (maxv : N) (n : N) (under : bool) (s : str) : outcome (N * bool) :=
-  match s with
-  | [] => Ok (n, under)
-  | c :: s' =>
-      if c =? 95 then uint_loop base maxv n true s'       (* base0 is always true here *)
-      else match digit_val c with
-           | None => Err e_syntax
-           | Some d =>
-               if base <=? d then Err e_syntax
-               else if (18446744073709551615 / base + 1) <=? n then Err e_range
-               else let n1 := n * base + d in
-                    if maxv <? n1 then Err e_range else uint_loop base maxv n1 under s'
-           end
-  end.
-
-(* strconv.underscoreOK *)
-Inductive usaw := SawStart | SawDigit | SawUnder | SawOther.
-Fixpoint under_loop (hex : bool) (saw : usaw) (s : str) : bool :=
-  match s with
-  | [] => match saw with SawUnder => false | _ => true end
-  | c :: s' =>
-      if ((48 <=? c) && (c <=? 57)) || (hex && (97 <=? lower_b c) && (lower_b c <=? 102))
-      then under_loop hex SawDigit s'
-      else if c =? 95 then
-        match saw with SawDigit => under_loop hex SawUnder s' | _ => false end
-      else match saw with SawUnder => false | _ => under_loop hex SawOther s' end
-  end.
-
-Definition is_base_letter (c : rune) : bool :=
-  let l := lower_b c in (l =? 98) || (l =? 111) || (l =? 120).
-
-Definition underscore_ok (s : str) : bool :=
-  let s := match s with c :: r => if (c =? 45) || (c =? 43) then r else s | [] => s end in
-  match s with
-  | 48 :: c1 :: r => if is_base_letter c1 then under_loop (lower_b c1 =? 120) SawDigit r
-                     else under_loop false SawStart s
-  | _ => under_loop false SawStart s
-  end.
-
-Definition parse_uint (bits : N) (s : str) : outcome N :=
-  match s with
-  | [] => Err e_syntax
-  | c0 :: rest =>
-      let '(base, digits) :=
-        if c0 =? 48 then
-          match rest with
-          | c1 :: _ :: _ =>
-              let l := lower_b c1 in
-              if l =? 98 then (2, tl rest) else if l =? 111 then (8, tl rest)
-              else if l =? 120 then (16, tl rest) else (8, rest)
-          | _ => (8, rest)
-          end
-        else (10, s) in
-      r <- uint_loop base (pow2 bits - 1) 0 false digits ;;
-      let '(n, under) := r in
-      if under && negb (underscore_ok s) then Err e_syntax else Ok n
-  end.
-
-(* ---- strconv.ParseInt(s, 0, bits) ---- *)
-Definition parse_int (bits : N) (s : str) : outcome Z :=
-  match s with
-  | [] => Err e_syntax
-  | c0 :: rest =>
-      let neg := c0 =? 45 in
-      let body := if (c0 =? 43) || neg then rest else s in
-      (* a range error of ParseUint stays a range error; syntax errors return *)
-      un <- parse_uint bits body ;;
-      let cutoff := pow2 (bits - 1) in
-      if negb neg && (cutoff <=? un) then Err e_range
-      else if neg && (cutoff <? un) then Err e_range
-      else Ok (if neg then (- Z.of_N un)%Z else Z.of_N un)
-  end.
+(* unicode.IsPrint restricted to ASCII *)
+Definition isp0 : rune -> bool := mk_print [].
 
 (* ---- time.ParseDuration (fractions with a non-zero digit are not modelled) ---- *)
 Definition two63 : N := pow2 63.
@@ -201,33 +121,16 @@ Definition parse_duration (s : str) : outcome Z :=
            else if (two63 - 1) <? d then Err e_range else Ok (Z.of_N d)
        end.
 
-(* ---- parse.String at a leaf type ---- *)
-Definition duration_name : str := s2r "time.Duration"%string.
-
-(* bit size of a kind as rty encodes it: 0 = int/uint (64 on the checked
-   platform), 1 = uintptr *)
-Definition int_bits (w : N) : N := if w <=? 1 then 64 else w.
-
-Definition in_int_range (w : N) (z : Z) : bool :=
-  let b := int_bits w in
-  ((- Z.of_N (pow2 (b - 1)) <=? z) && (z <? Z.of_N (pow2 (b - 1))))%Z.
-
-Definition in_uint_range (w : N) (n : N) : bool := n <? pow2 (int_bits w).
-
-(* rty prints predeclared types with their own name ("int", "string"); a
-   declared type has a package-qualified name ("time.Duration", "rty.NLevel") *)
-Definition predeclared (name : str) : bool := negb (existsb (N.eqb 46) name).
-
 (* ---- strconv.ParseFloat / ParseComplex on the plain decimal subset
      [+-]? digits* [. digits*] [ (e|E) [+-]? digits+ ]
    whose value times 1024 is an integer (values are carried as VFloat (v*1024)).
    Anything else in the subset is Err 98 (inexact: not modelled); text outside
    the subset is a syntax error here - "inf", "nan", hexadecimal floats and
    digit separators are never generated. ---- *)
-Fixpoint digits_val (acc : N) (s : str) : option N :=
+Fixpoint dec_val (acc : N) (s : str) : option N :=
   match s with
   | [] => Some acc
-  | c :: r => if is_digit c then digits_val (acc * 10 + (c - 48)) r else None
+  | c :: r => if is_digit c then dec_val (acc * 10 + (c - 48)) r else None
   end.
 
 Fixpoint span_digits (s : str) : str * str :=
@@ -257,10 +160,10 @@ Definition parse_float (bits : N) (s : str) : outcome Z :=
                       let '(eneg, ed) := match r with
                                          | x :: r' => if x =? 45 then (true, r') else if x =? 43 then (false, r') else (false, r)
                                          | [] => (false, r) end in
-                      match ed with [] => None | _ => match digits_val 0 ed with Some e => Some (eneg, e) | None => None end end
+                      match ed with [] => None | _ => match dec_val 0 ed with Some e => Some (eneg, e) | None => None end end
                     else None
         end in
-      match eo, digits_val 0 (ip ++ fp) with
+      match eo, dec_val 0 (ip ++ fp) with
       | Some (eneg, e), Some m =>
           let k := N.of_nat (length fp) in
           let num := m * 1024 * (if eneg then 1 else 10 ^ e) in
@@ -283,7 +186,7 @@ Fixpoint imag_split (prev : rune) (acc : str) (s : str) (best : option (str * st
       imag_split c (acc ++ [c]) r here
   end.
 
-Definition parse_complex (bits : N) (s : str) : outcome val :=
+Definition complex_parts (bits : N) (s : str) : outcome Z * outcome Z :=
   let half := if bits =? 64 then 32 else 64 in
   let s := match s with
            | 40 :: r => match rev r with 41 :: r' => rev r' | _ => s end
@@ -292,47 +195,109 @@ Definition parse_complex (bits : N) (s : str) : outcome val :=
   | 105 :: rbody =>                                   (* ends in i *)
       let body := rev rbody in
       match imag_split 0 [] body None with
-      | Some (re, im) => a <- parse_float half re ;; b <- parse_float half im ;; Ok (VList [VFloat a; VFloat b])
-      | None => b <- parse_float half body ;; Ok (VList [VFloat 0; VFloat b])
+      | Some (re, im) => (parse_float half re, parse_float half im)
+      | None => (Ok 0%Z, parse_float half body)
       end
-  | _ => a <- parse_float half s ;; Ok (VList [VFloat a; VFloat 0])
+  | _ => (parse_float half s, Ok 0%Z)
   end.
 
-(* the value produced for castTo = t (before the pointer wrap).  A declared
-   scalar type is parsed as its kind (parseNumber dispatches on Kind; the only
-   type looked at is time.Duration) and converted by the flatten mangler. *)
-Definition parse_text (t : ty) (s : str) : outcome val :=
+Definition parse_complex (bits : N) (s : str) : outcome val :=
+  a <- fst (complex_parts bits s) ;; b <- snd (complex_parts bits s) ;; Ok (VList [VFloat a; VFloat b]).
+
+(* ---- reflect widths (rty encodes int/uint as width 0, uintptr as 1) ---- *)
+Definition duration_name : str := s2r "time.Duration"%string.
+Definition predeclared (name : str) : bool := negb (existsb (N.eqb 46) name).
+
+Definition int_bits (w : N) : N := if w <=? 1 then 64 else w.
+
+Definition sw_of (w : N) : swidth :=
+  match w with 8 => I8 | 16 => I16 | 32 => I32 | 64 => I64 | _ => IInt end.
+Definition uw_of (w : N) : uwidth :=
+  match w with 8 => U8 | 16 => U16 | 32 => U32 | 64 => U64 | 1 => UPtr | _ => UInt end.
+
+Definition in_int_range (w : N) (z : Z) : bool := in_srange (sw_of w) z.
+Definition in_uint_range (w : N) (n : N) : bool := in_urange (uw_of w) n.
+
+(* ---- the bridge to the model of package parse ---- *)
+Definition is_pstring (t : ty) : bool :=
+  match t with TBasic KString n => predeclared n | _ => false end.
+
+(* the ParseString type of a reflect type; None: outside that model
+   (durations, floats, complex - handled below) *)
+Fixpoint to_ps (t : ty) {struct t} : option PS.ty :=
+  match t with
+  | TBasic k name =>
+      if str_eqb name duration_name then None else
+      match k with
+      | KString => Some PS.TStr
+      | KBool => Some PS.TBool
+      | KInt w => Some (PS.TInt (sw_of w))
+      | KUint w => Some (PS.TUint (uw_of w))
+      | KFloat _ | KComplex _ => None
+      end
+  | TSlice e _ => option_map PS.TSlice (to_ps e)
+  | TMap k v name =>
+      (* parse.String compares the type itself with map[string][]string and map[string]struct{} *)
+      if match name with [] => true | _ => false end && is_pstring k &&
+         match v with TSlice e [] => is_pstring e | _ => false end then Some PS.TMss
+      else if match name with [] => true | _ => false end && is_pstring k &&
+              match v with TStruct FNil [] => true | _ => false end then Some PS.TSet
+      else match to_ps k, to_ps v with
+           | Some k', Some v' => Some (PS.TMap k' v')
+           | _, _ => None
+           end
+  | _ => Some PS.TOther
+  end.
+
+Fixpoint of_pval (v : PS.pval) : val :=
+  match v with
+  | PS.VStr s => VStr s
+  | PS.VBool b => VBool b
+  | PS.VInt z => VInt z
+  | PS.VList l => VList (map of_pval l)
+  | PS.VSet l => VMap (map (fun k => (VStr k, VStruct [])) l)
+  | PS.VMss m => VMap (map (fun kv => (VStr (fst kv), VList (map VStr (snd kv)))) m)
+  | PS.VMap m => VMap (map (fun kv => (of_pval (fst kv), of_pval (snd kv))) m)
+  end.
+
+(* scalars the parse model lacks *)
+Definition parse_extra (t : ty) (s : str) : outcome val :=
   match t with
   | TBasic k name =>
       if str_eqb name duration_name then
         match k with KInt 64 => omap VInt (parse_duration s) | _ => Err 96 end
-      else
-        match k with
-        | KString => Ok (VStr s)
-        | KBool => omap VBool (parse_bool s)
-        | KInt w => z <- parse_int 64 s ;;
-                    if in_int_range w z then Ok (VInt z) else Err e_range
-        | KUint w =>
-            if w =? 1 then Err e_kind           (* uintptr: parse.String has no case for it *)
-            else n <- parse_uint 64 s ;;
-                 if in_uint_range w n then Ok (VInt (Z.of_N n)) else Err e_range
-        | KFloat b => omap VFloat (parse_float b s)
-        | KComplex b => parse_complex b s
-        end
-  | TSlice _ _ | TMap _ _ _ => Err e_unmodelled
-  | _ => Err e_kind                       (* struct, array, pointer, interface ... *)
+      else match k with
+           | KFloat b => omap VFloat (parse_float b s)
+           | KComplex b => parse_complex b s
+           | _ => Err 96
+           end
+  | _ => Err e_unmodelled
   end.
 
-(* ==== helpers used by the flag sources (C12) ==== *)
+(* parse.String(str, t): the value for castTo = t (before the pointer wrap).
+   fixed = true, fixed_elem = true: the current tree (findings 9 and the
+   nested-slice panic are repaired). *)
+Definition parse_text (t : ty) (s : str) : outcome val :=
+  match to_ps t with
+  | Some pt => omap of_pval (PS.parse_string isp0 true true pt s)
+  | None =>
+      match t with
+      | TSlice e _ =>                       (* a slice of durations / floats: element-wise, as the code does *)
+          l <- string_slice isp0 s ;; omap VList (map_out (parse_extra e) l)
+      | TMap _ _ _ => Err e_unmodelled      (* maps with float / duration components *)
+      | _ => parse_extra t s
+      end
+  end.
+
+(* ==== what the flag sources need beyond package parse ==== *)
 
 (* ---- net.IP.UnmarshalText restricted to dotted-quad IPv4 text (and the
-   empty text, which yields a nil IP without error); IPv6 text is not modelled
-   and never generated ---- *)
-Fixpoint split_on (sep : rune) (cur : str) (s : str) : list str :=
-  match s with
-  | [] => [cur]
-  | c :: s' => if c =? sep then cur :: split_on sep [] s' else split_on sep (cur ++ [c]) s'
-  end.
+   empty text, which yields a nil IP without error) ---- *)
+Definition netip_name : str := s2r "net.IP"%string.
+Definition netip (e : ty) (name : str) : bool :=
+  match e with TBasic (KUint 8) _ => str_eqb name netip_name | _ => false end.
+Definition is_netip (t : ty) : bool :=
+  match t with TSlice e n => netip e n | _ => false end.
 
 Definition ip_field (f : str) : option N :=
   match f with
@@ -349,76 +314,19 @@ Definition parse_ip (s : str) : outcome val :=
   match s with
   | [] => Ok VNil
   | _ =>
-      match map ip_field (split_on 46 [] s) with
+      match map ip_field (split_on 46 s) with
       | [Some a; Some b; Some c; Some d] =>
           Ok (VList (map (fun n => VInt (Z.of_N n)) [0;0;0;0;0;0;0;0;0;0;255;255;a;b;c;d]))
       | _ => Err e_syntax
       end
   end.
 
-Definition netip_name : str := s2r "net.IP"%string.
-(* net.IP = `type IP []byte` *)
-Definition netip (e : ty) (name : str) : bool :=
-  match e with TBasic (KUint 8) _ => str_eqb name netip_name | _ => false end.
-Definition is_netip (t : ty) : bool :=
-  match t with TSlice e n => netip e n | _ => false end.
-
-(* ---- parse.StringSlice / parse.StringSet / splitMap on the simple alphabet:
-   tokens over [a-z0-9], separated by ',' (and ':' in maps).  Quoting,
-   whitespace and every other rune are outside this stand-in (Err 97). ---- *)
-Definition simple_rune (c : rune) : bool := is_lower c || is_digit c.
-
-Fixpoint csv_loop (cur : str) (acc : list str) (s : str) : outcome (list str) :=
+(* ---- pflag's stringSliceValue.Set: encoding/csv on one line.  Modelled for
+   fields without quotes, CR/LF or leading blanks issues: plain fields split
+   at ','; the empty text is the empty list; a quote is outside (Err 97) ---- *)
+Definition pflag_csv (s : str) : outcome (list str) :=
   match s with
-  | [] => Ok (match cur with [] => acc | _ => acc ++ [cur] end)
-  | c :: s' =>
-      if c =? 44 then csv_loop [] (match cur with [] => acc | _ => acc ++ [cur] end) s'
-      else if simple_rune c then csv_loop (cur ++ [c]) acc s'
-      else Err e_unmodelled
-  end.
-Definition simple_csv (s : str) : outcome (list str) := csv_loop [] [] s.
-
-(* one "k", "k:" or "k:v" segment *)
-Definition kv_segment (seg : str) : outcome (option (str * str)) :=
-  match seg with
-  | [] => Ok None
-  | _ =>
-      if negb (forallb (fun c => simple_rune c || (c =? 58)) seg) then Err e_unmodelled
-      else match split_on 58 [] seg with
-           | [k] => Ok (Some (k, []))
-           | [k; v] => match k with [] => Err e_syntax | _ => Ok (Some (k, v)) end
-           | _ => Err e_syntax                                   (* "unexpected colon" *)
-           end
-  end.
-
-Fixpoint kv_list (segs : list str) : outcome (list (str * str)) :=
-  match segs with
   | [] => Ok []
-  | seg :: r =>
-      o <- kv_segment seg ;;
-      rest <- kv_list r ;;
-      Ok match o with Some kv => kv :: rest | None => rest end
-  end.
-Definition simple_kvs (s : str) : outcome (list (str * str)) := kv_list (split_on 44 [] s).
-
-(* strings.TrimSpace restricted to ' ' and tab *)
-Fixpoint trim_left (s : str) : str :=
-  match s with c :: r => if (c =? 32) || (c =? 9) then trim_left r else s | [] => [] end.
-Definition trim_space (s : str) : str := rev (trim_left (rev (trim_left s))).
-
-(* parse.SignedIntegralSlice / UnsignedIntegralSlice *)
-Definition int_elem (signed : bool) (bits : N) (p : str) : outcome val :=
-  if signed then omap VInt (parse_int bits (trim_space p))
-  else omap (fun n => VInt (Z.of_N n)) (parse_uint bits (trim_space p)).
-
-Fixpoint int_elems (signed : bool) (bits : N) (l : list str) : outcome (list val) :=
-  match l with
-  | [] => Ok []
-  | a :: r => b <- int_elem signed bits a ;; bs <- int_elems signed bits r ;; Ok (b :: bs)
-  end.
-
-Definition int_slice (signed : bool) (bits : N) (s : str) : outcome (list val) :=
-  match s with
-  | [] => Ok []                            (* the empty text is the empty slice *)
-  | _ => int_elems signed bits (split_on 44 [] s)
+  | _ => if existsb (fun c => (c =? 34) || (c =? 10) || (c =? 13)) s then Err e_unmodelled
+         else Ok (split_on 44 s)
   end.
